@@ -176,6 +176,10 @@ def run_halflock(chk, tier, want_liveness=False):
                                 timeout=900, workers=4)
             if r.violation:
                 chk.model_violation(r, "half_lock.rs liveness", c)
+    # 1b. the unbounded argument: an inductive invariant (Apalache), with the extracted shape
+    if pid == "C01":
+        import inductive
+        inductive.halflock_induction(chk, consts, readers=3 if tier == "quick" else 4)
     # 2. the real code, all schedules of small scenarios
     todo = list(scenarios(tier))
     if pid == "C18":
